@@ -116,6 +116,8 @@ class Program:
         self.by_node = {}       # id(ast node) -> FuncInfo
         self._load()
         self._link()
+        from . import terms as _T
+        _T.PACKAGE_HEADS.update(fi.short for fi in self.functions.values())
 
     # ---------------------------------------------------------------- loading
     def _load(self):
